@@ -201,6 +201,9 @@ func (g *Gen) pushManifest(repo string) {
 		}
 		sj := g.subjTok(repo)
 		toks = []string{"mt=" + mtField, "children=" + strings.Join(ch, ";"), "subj=" + sj, "at=" + at, "ann=" + ann}
+		if len(ch) > 0 && g.r.Intn(4) == 0 {
+			toks = append(toks, "cdata=1") // child descriptors carry an embedded data field that is not the child's content
+		}
 		if sj != "" {
 			g.subjects = append(g.subjects, sj)
 		}
